@@ -23,17 +23,17 @@ CHECKS = {
             TB + "Declined: 'eventually' (liveness) and end-of-run capacity counts. F1 and F10 are recorded known findings."),
     "C03": ("Life-cycle typestate with callback roles: at every suspension/user step the id is in exactly one registry; cancel callback begun exactly once iff the coroutine left by "
             "cancellation, while filed as cancelled, before the end callback; end callback exactly once while filed as ended, slot already released, with the task id; "
-            "registry transition who-may table; callback role wiring through every hop; execute_optional awaits coroutine callbacks; a supplied callback is run whatever its truth value (only `is None` / callable() decide that none was given); WHAT(Task.cancel): every receiver is an entry of the running registry or a spawner, also when looked up through a combined view of registries.",
+            "registry transition who-may table; callback role wiring through every hop; execute_optional awaits coroutine callbacks; a supplied callback is run whatever its truth value (only `is None` / callable() decide that none was given); WHAT(Task.cancel): every receiver is an entry of the running registry or a spawner, also when looked up through a combined view of registries; FORWARDED (a callback the request carries is passed on at every hop, never left at its default or hidden behind an opaque **); FORGET-ONLY-GATHERED with its premises (pool locked before the close first suspends, spawners waited for first) as the 'until the pool is closed' clause.",
             "typestate abstract interpretation (roles END/CANCEL/ID propagated through call bindings) + wiring + who-may tables", "5 C03",
             TB + "Declined: the counter identity as arithmetic (follows from the transition table). F1 and F10 shared."),
     "C04": ("Per-iteration typestate of _apply_spawner/_start_num (exactly one func(*args, **kwargs) per iteration, handed to exactly one completed _start_task, raising call skipped, "
             "loop left early only by cancellation), range(num) shape, UNREACHABLE-RAISE of PoolIsLocked from spawners by constant propagation of ignore_lock, one spawner task "
-            "per accepted request, argument role wiring, no time-outs.",
+            "per accepted request, argument role wiring, no time-outs; SNAPSHOT-FRESH (copy clause: gather_and_close waits for the spawners the registry holds when the wait starts).",
             "iteration typestate + context-sensitive constant propagation into guards + wiring", "5 C04",
             TB + "Declined: waiting 'however long' as a temporal statement (no time-out exists: checked as a zero-count rule with a positive control)."),
     "C05": ("Constant table map/starmap/doublestarmap -> 0/1/2 -> star_function branch shapes (by constant propagation; with 0/1/2 star_function raises nothing of its own and returns only through the call), iterable forwarded lazily to exactly one for-header, "
             "Semaphore(num_concurrent), acquire-before-start per iteration, end callback is the semaphore-releasing wrapper, release first/once in the wrapper, "
-            "who-may-release the map semaphore, skip-on-raise; unique ids (id discipline shared with C11) and spawner-table integrity as premises; HANDOFF shared (F1).",
+            "who-may-release the map semaphore, skip-on-raise; unique ids (id discipline shared with C11) and spawner-table integrity as premises; the close waits for the map's spawner (GATHER-COMPLETE + SNAPSHOT-FRESH copy clause in gather_and_close); HANDOFF shared (F1).",
             "table agreement by constant propagation + iteration typestate + who-may tables", "5 C05",
             TB + "Declined: 'exactly num_concurrent running whenever idle' as a count. F1 shared (known finding)."),
     "C06": ("Two-phase cancel (no look-up or raising step reachable after a Task.cancel), look-up table decided by abstract interpretation over the four id states "
@@ -47,7 +47,7 @@ CHECKS = {
             TB + "Declined: re-entrant cancel from the group's own iterator (excluded by the property); progress of sibling groups (liveness)."),
     "C08": ("Order lock -> spawner waits -> task wait (all three registries) -> forget -> _closed.set() by completion-dominance; who-may set/clear the closed event; GATHER-COMPLETE "
             "(no swallowed early completion; cancelled-spawner gather uses return_exceptions=True); closed pools reject first (precedence in _check_start, VALIDATE-FIRST); "
-            "PoolIsLocked unreachable from spawners; FORGET-ONLY-GATHERED (may-analysis of registries that can hold an un-gathered task); HANDOFF shared; slot balance of the acquirer (a lost slot leaves a blocked spawner, and the close, waiting forever); a cancelled group's spawners are cancelled on every way through the group helper.",
+            "PoolIsLocked unreachable from spawners; FORGET-ONLY-GATHERED (may-analysis of registries that can hold an un-gathered task); HANDOFF shared; slot balance of the acquirer (a lost slot leaves a blocked spawner, and the close, waiting forever); a cancelled group's spawners are cancelled on every way through the group helper; SNAPSHOT-FRESH (no eager copy of a registry taken before a suspension and gathered after it; no iterator over a registry - a generator expression's outermost iterable - created before a suspension and advanced after it: F11, fixed).",
             "completion-dominance on the CFG + GATHER-COMPLETE rule + constant propagation", "5 C08",
             TB + "Declined: 'returns only after every task finished' as a temporal statement (follows from the order + trusted gather). F1 shared."),
     "C09": ("VALIDATE-FIRST on every spawning entry point and the pool_size setter (no trace completes before any raising exit), precedence type-check < closed < locked, raise inventory "
@@ -61,7 +61,7 @@ CHECKS = {
             "wrapper argument, task name and return value; name templates; per-instance state; index from _add_pool; callback id by typestate.",
             "who-may-write + path counting + abstract string evaluation + typestate (ID role)", "5 C11", TB + "Declined: density as a numeric statement over histories."),
     "C12": ("Typestate (slot released exactly once before the end callback on every edge kind), no swallowing of user exceptions in the wrapper / callbacks executor, spawner "
-            "skip-on-raise typestate, return_exceptions wiring into every task gather, FORGET-ONLY-GATHERED in gather_and_close, only user steps may raise in the life-cycle functions (registry-integrity lemma checked).",
+            "skip-on-raise typestate, return_exceptions wiring into every task gather, FORGET-ONLY-GATHERED in gather_and_close, only user steps may raise in the life-cycle functions (registry-integrity lemma checked); the cancel callback runs with its task already filed as cancelled; SNAPSHOT-FRESH iterator clause (F11, fixed).",
             "typestate + exceptional-edge reachability + may-raise analysis", "5 C12", TB + "Declined: 'every other task proceeds exactly as if it had succeeded' (behavioural)."),
     "C13": ("SNAPSHOT-FORGET (removals after a suspension keyed by a pre-await snapshot whose tasks were gathered, or guarded by done()), flush has no effect on running tasks/other "
             "state (a rebuilt registry is read from the attribute, never through a reference taken before the wait), exit dominated by the forgetting of both registries, return_exceptions wiring, no other raising step.",
@@ -80,12 +80,12 @@ CHECKS = {
             TB + "Declined: the bytes on the wire; help text for every width (argparse run-time behaviour). F6 is a recorded known finding."),
     "C17": ("Dispatch structure of _exec_method_and_respond (self, positional kinds in signature order, *args after, rest by keyword, through return_or_exception), RESULT-USED at all "
             "three return_or_exception call sites with the reply forms ok-if-None-else-str / str, add_function_arg mapping incl. the bool-defaults-to-False table over the pool classes, "
-            "return_or_exception semantics (called once, awaited under the coroutine guard, Exception returned, nothing but cancellation escapes - call and await); TOKENS (what reaches parse_args is the line split at blanks, words unchanged); OK-CONSTANT (the reply for a None result is the decoded module constant whose value is the text 'ok'); OMIT-SELF (the omitted-parameter default names the receiver and nothing else); CONVERSION-SITES (a type converter is installed only by add_function_arg from the parameter's own annotation; no argparse action is re-configured); PARSER-CONFIG (argparse reading options stay at their defaults); UNCONVERTED-ONLY-SENTINEL (only the SUPPRESS object itself bypasses conversion); buffer isolation; WIRE-CODEC (UTF-8, strict, on both sides of the wire); DISPATCH-NAMES (forwarding **kwargs cannot clash with a parameter of the receiving function); DISPATCH-KIND (functions to the method executor, properties to the property executor); annotation table shared (F6).",
+            "return_or_exception semantics (called once, awaited under the coroutine guard, Exception returned, nothing but cancellation escapes - call and await); TOKENS (what reaches parse_args is the line split at blanks, words unchanged); OK-CONSTANT (the reply for a None result is the decoded module constant whose value is the text 'ok'); OMIT-SELF (the omitted-parameter default names the receiver and nothing else); CONVERSION-SITES (a type converter is installed only by add_function_arg from the parameter's own annotation; no argparse action is re-configured); PARSER-CONFIG (argparse reading options stay at their defaults); UNCONVERTED-ONLY-SENTINEL (only the SUPPRESS object itself bypasses conversion); buffer isolation; WIRE-CODEC (UTF-8, strict, on both sides of the wire); DISPATCH-NAMES (forwarding **kwargs cannot clash with a parameter of the receiving function); DISPATCH-KIND (functions to the method executor, properties to the property executor); no synchronisation object shared between sessions is held across a suspension; annotation table shared (F6).",
             "syntax-directed structure rules + RESULT-USED data-flow + path counting", "5 C17",
             TB + "Declined: equality of effects for every argument value (translation over run-time values). F6 shared (known finding)."),
     "C18": ("HATCHES (all four argparse escape hatches overridden, no print/sys.std*/exit in parser, session, server; positive control in client), per-iteration protocol of listen by "
-            "typestate (one read, one command, one reply, drained), containment as three structural sub-rules (handlers around parse_args cover ArgumentError/HelpRequested/ParserError and "
-            "fall through; type wrapper lets only ArgumentTypeError/TypeError/ValueError out; pool members invoked only through return_or_exception after a successful parse), buffer isolation, PARSER-CONFIG, UNCONVERTED-ONLY-SENTINEL, SESSION-IS-LOCAL (per-connection objects live in the connection callback's locals); no lock shared between sessions is held across an await; DISPATCH-NAMES.",
+            "typestate (one read, one command, one reply, drained), containment as structural sub-rules (handlers around parse_args cover ArgumentError/HelpRequested/ParserError and "
+            "fall through; the parser hooks that run inside parse_args leave exceptionally only as ParserError/HelpRequested; type wrapper lets only ArgumentTypeError/TypeError/ValueError out; pool members invoked only through return_or_exception after a successful parse), buffer isolation, PARSER-CONFIG, UNCONVERTED-ONLY-SENTINEL, SESSION-IS-LOCAL (per-connection objects live in the connection callback's locals); no lock shared between sessions is held across an await; DISPATCH-NAMES.",
             "hatch/who-may rules + iteration typestate + exceptional-exit inventory", "5 C18",
             TB + "Declined: one reply 'when the wait is over'; output of concurrent sessions (follows from per-instance state)."),
     "C19": ("serve_forever awaits only the start-up and returns the serving task; _serve_forever runs _final_callback exactly once on every way out once serving began and absorbs "
